@@ -169,7 +169,10 @@ def case_plus(ctx, rng):
     ov = sum(1 for k, _, _ in d1["keys"] if any(k == k2 for k2, _, _ in d2["keys"]))
     ctx.table("plus_cases", f"overlap={min(ov, 2)}|relaxed={int(bool(d1.get('relaxed')))}{int(bool(d2.get('relaxed')))}")
     info = {"combinator": "plus", "operands": [show(d1), show(d2)], "combined": repr(comb)[:400]}
-    compare(ctx, "plus", expected, comb, values_for(ctx, rng, [expected, d1, d2], 40), info)
+    vals = values_for(ctx, rng, [expected, d1, d2], 40)
+    compare(ctx, "plus", expected, comb, vals, info)
+    compare(ctx, "plus_operand", d1, s1, vals[:20], info)
+    compare(ctx, "plus_operand", d2, s2, vals[:20], info)
     # operands unchanged in meaning (purity is C07's; here only that + did not alias the key tables)
     check_members(ctx, "plus", expected, comb, info)
     gen_fake_check(ctx, "plus", expected, comb, rng, info)
@@ -254,7 +257,10 @@ def case_make_required(ctx, rng):
     expected = required_spec(d, K)
     ctx.distinct(["make_required", mode, shape(d)], True)
     info["combined"] = repr(comb)[:400]
-    compare(ctx, "make_required", expected, comb, values_for(ctx, rng, [expected, d], 40), info)
+    vals = values_for(ctx, rng, [expected, d], 40)
+    compare(ctx, "make_required", expected, comb, vals, info)
+    # the operand still means what it was declared to mean (the combinator builds a new schema)
+    compare(ctx, "make_required_operand", d, s, vals[:30], info)
     check_members(ctx, "make_required", expected, comb, info)
     gen_fake_check(ctx, "make_required", expected, comb, rng, info)
     return info
